@@ -1,10 +1,12 @@
 CONSTANT MaxLang = 2
 CONSTANT Shapes = {"empty", "short", "edge"}
 CONSTANT RuleShapes = {"short", "edge"}
+CONSTANT P2Shapes = {"short"}
 INIT Init
 NEXT Next
 INVARIANT ViewShape
 INVARIANT Wrapping
 INVARIANT Distinct
 INVARIANT RuleShape
+INVARIANT FlagIrrelevant
 POSTCONDITION AllCasesVisited
